@@ -43,7 +43,7 @@ ASSUMPTIONS = [
 REPORT_COUNTERS = ["cases", "crash_points_enumerated", "faults_raised", "scn_first_call", "scn_rebuild", "scn_cache_miss",
                    "scn_next_chain", "scn_invalid_method", "scn_hook_raises", "scn_recursion", "probe_vectors_compared",
                    "invalid_method_positions", "invalid_method_via_linkback_parent", "invalid_method_swapped_for_valid", "invalid_method_after_first_build", "recursion_faults", "hook_faults", "post_fault_behaviours",
-                   "rebuild_faults_probed_through_linked_copy", "invalid_method_after_first_build_of_linked_copy",
+                   "rebuild_faults_probed_through_linked_copy", "registrations_repeated_after_a_fault", "registrations_repeated_straight_after_a_fault", "invalid_method_after_first_build_of_linked_copy",
                    "suspended_method_histories", "suspended_method_two_failed_builds", "recursive_calls_of_suspended_method_checked"]
 
 SCENARIOS = ["first_call", "rebuild", "cache_miss", "next_chain", "invalid_method", "hook_raises", "recursion"]
@@ -181,6 +181,7 @@ def _setup(spec, env, scn):
                 prog.linked_child(*a[0])
             except Exception:  # noqa: BLE001
                 pass
+        prog.parent_ov = parent
         op = lambda: parent.register(fn, priority=spec["late"].get("prio", 0))  # noqa: E731
     return prog, op
 
@@ -219,6 +220,28 @@ def _injected(spec, env, res, ref, behaviours):
         res.ev()
         res.count("faults_raised")
         res.nontrivial([scn, list(st[1])])
+        if scn == "rebuild" and n % 2 and getattr(prog, "linked_child", None) is None:
+            # every other point: the registration that was cut short is made again straight away (if it did not get as
+            # far as the definitions), before anything else looks at the function - it must show
+            parent = prog.parent_ov
+            lf = prog.fns.get(spec["late"]["mid"])
+            if lf is not None and not any(f is lf for f in parent.defns.values()):
+                try:
+                    parent.register(lf, priority=spec["late"].get("prio", 0))
+                    prog.bind()
+                    got0 = [norm(prog.call(c)) for c in spec["probes"]]
+                    res.count("registrations_repeated_straight_after_a_fault")
+                    if got0 != [r_[1] for r_ in ref_new]:
+                        res.violation("change-after-fault-not-taken", [scn, st[1][0], st[1][1], "straight-away"], spec,
+                                      observed={"crash_point": [n, *st[1]],
+                                                "calls": [{"call": c, "got": g_, "reference": r_[1]}
+                                                          for c, g_, r_ in zip(spec["probes"], got0, ref_new) if g_ != r_[1]][:3]},
+                                      acceptable="a registration made after the fault is part of the function")
+                        prog.close()
+                        return
+                except Exception as e:  # noqa: BLE001
+                    if isinstance(e, Injected):
+                        raise
         if scn == "rebuild":
             if getattr(prog, "linked_child", None) is not None:
                 # the parent is asked first (a fresh call rebuilds it), then the probes go to the linked copy
@@ -244,6 +267,26 @@ def _injected(spec, env, res, ref, behaviours):
                           acceptable="every probe behaves as on a never-faulted function built from the complete method set")
             prog.close()
             return
+        if scn == "rebuild":
+            # and the function goes on taking changes: the registration that was cut short is made again (if it did
+            # not get as far as the definitions), this time undisturbed, and must show
+            parent = prog.parent_ov
+            lf = prog.fns.get(spec["late"]["mid"])
+            if lf is not None and not any(f is lf for f in parent.defns.values()):
+                try:
+                    parent.register(lf, priority=spec["late"].get("prio", 0))
+                except Exception:  # noqa: BLE001
+                    lf = None
+                if lf is not None:
+                    prog.bind()
+                    got2 = _probe(prog, spec["probes"])
+                    res.count("registrations_repeated_after_a_fault")
+                    if got2 != ref_new:
+                        res.violation("change-after-fault-not-taken", [scn, st[1][0], st[1][1]], spec,
+                                      observed={"crash_point": [n, *st[1]], "probes": _diff(got2, ref_new, spec["probes"])},
+                                      acceptable="a registration made after the fault is part of the function")
+                        prog.close()
+                        return
         prog.close()
 
 
